@@ -58,8 +58,10 @@ def main():
                 rc, out = sh("git checkout -q --detach %s && git apply %s && git -c user.name=v -c user.email=v@v commit -qam seed && git -c user.name=v -c user.email=v@v cherry-pick %s..%s" % (
                     base, os.path.abspath(patch), base, sh("git -C /repo rev-parse HEAD")[1].strip()), cwd=wt)
                 if rc == 0:
-                    sh("git reset -q --soft %s" % sh("git -C /repo rev-parse HEAD")[1].strip(), cwd=wt)
+                    sh("git reset -q %s" % sh("git -C /repo rev-parse HEAD")[1].strip(), cwd=wt)
                     meta["ported_from"] = base
+                else:
+                    sh("git cherry-pick --abort", cwd=wt)
             assert rc == 0, "patch does not apply: " + out
             sh("find . -name '*.orig' -delete", cwd=wt)
             rc2, refreshed = sh("git diff -- derive-ex", cwd=wt)
